@@ -142,6 +142,11 @@ def run(res, tier):
     res.rule("C09.2 who may call: only the one-sided near-field wrapper; unfiltered neighbour list + in-group part + self list mapped on SOURCE groups with the TARGET working group; M2L likewise; P2M/M2M source-only, L2L/L2P target-only")
     res.rule("C09.3 OpenMP target/source executor: capture lifetime and dependencies (C03.b/c/d/e rules)")
     res.rule("C09.4 each execution depends on the two trees and the kernels only: stage functions keep nothing about the trees in the executor (interaction lists remembered across execute() calls cannot be invalidated when a tree is rebuilt)")
+    res.rule("C09.6 after a move / rebuild cycle both trees start from zeroed expansions: the target/source rebuild rebuilds both trees unconditionally (rule C13.4 on TbfTreeTsm::rebuild)")
+    import c13 as _c13
+    _sub = tbf.Result("C13")
+    _c13.run(_sub, "quick")
+    tbf.reexport(res, _sub, ("C13.4.tsm",), "C09.6.both-trees-rebuilt", min_instances=1)
     import c12
     before = len(res.violations)
     for cls in TSM:
